@@ -8,6 +8,14 @@ OPAQUE_LENGTH (Vec4, "V4", 4)
 using namespace IMATH_INTERNAL_NAMESPACE;
 #include "ops_c08.h"
 #include "c08_modes.h" // extra modes ratwit / rateval / ratargs / ratwith used by tools/props/c08.py; every other mode is sym_main's
+#define C08_REGN(id, L)                                                                                                \
+    C08_REG (id##_dot, "C08." L ".dot") C08_REG (id##_length2, "C08." L ".length2") C08_REG (id##_normalize, "C08." L ".normalize") \
+    C08_REG (id##_normalizeExc, "C08." L ".normalizeExc") C08_REG (id##_normalizeNonNull, "C08." L ".normalizeNonNull")      \
+    C08_REG (id##_normalized, "C08." L ".normalized") C08_REG (id##_normalizedExc, "C08." L ".normalizedExc")                \
+    C08_REG (id##_normalizedNonNull, "C08." L ".normalizedNonNull")
+C08_REGN (v2, "V2")
+C08_REGN (v3, "V3")
+C08_REGN (v4, "V4")
 int main (int argc, char** argv)
 {
     int rc = c08modes::extra_main (argc, argv);
